@@ -1,1 +1,264 @@
-/-! C40 — property theorems (stub: nothing proved yet). -/
+import B6.Model.Proto.Service
+import B6.Model.Proto.Worlds
+import B6.Lemmas.ProtoService
+import B6.Lemmas.ProtoServiceInv
+import B6.Lemmas.ProtoServiceLive
+import B6.Lemmas.ProtoWorlds
+/-!
+# C40 — Concurrent client requests behave like some serial order
+
+About `B6.Model.Proto.Service` (the lock protocol of the gRPC service: `RLock` … `RUnlock; Lock; apply;
+Unlock; RLock` … `RUnlock`, the `MutableWorlds` map with orphaned world objects, writer-preferring or plain
+`RWMutex`) and `B6.Model.Proto.Worlds` (`MutableWorlds` with its mutex spelled out).  Every theorem is for
+ALL interleavings: any number of clients, any requests, any initial worlds, any reachable state, both
+`RWMutex` disciplines (`pref`).
+-/
+namespace B6.Props.C40
+open B6.Model.Proto B6.Model.Proto.Service B6.Lemmas.ProtoService
+
+/-! ## invariants along every run -/
+
+theorem lockInv_init (base : World) (v0 : View) (reqs : List Req) : LockInv (init base v0 reqs) := by
+  have hr : ∀ r : Req, isReader ({ req := r, pc := startPc r } : Client) = false := by
+    intro r; cases r <;> rfl
+  have hw : ∀ r : Req, isWriter ({ req := r, pc := startPc r } : Client) = false := by
+    intro r; cases r <;> rfl
+  refine ⟨?_, ?_, by simp [init]⟩
+  · simp only [init, List.countP_map]
+    symm; apply List.countP_eq_zero.mpr
+    intro r _; simp [Function.comp, hr]
+  · simp only [init, List.countP_map]
+    apply List.countP_eq_zero.mpr
+    intro r _; simp [Function.comp, hw]
+
+theorem reachable_lockInv {pref : Bool} {base : World} {v0 : View} {reqs : List Req} {s : State}
+    (h : Reachable (step pref) (init base v0 reqs) s) : LockInv s :=
+  Reachable.invariant LockInv (lockInv_init base v0 reqs) (fun s s' => lockInv_step pref s s') s h
+
+theorem reachable_weakInv {pref : Bool} {base : World} {v0 : View} {reqs : List Req} {s : State}
+    (h : Reachable (step pref) (init base v0 reqs) s) : WeakInv s :=
+  Reachable.invariant WeakInv (weakInv_init base v0 reqs) (fun s s' => weakInv_step pref s s') s h
+
+theorem reachable_inv {pref : Bool} {base : World} {v0 : View} {reqs : List Req} (hcf : conflictFree reqs = true)
+    {s : State} (h : Reachable (step pref) (init base v0 reqs) s) : Inv base v0 reqs s :=
+  Reachable.invariant (Inv base v0 reqs) (inv_init base v0 reqs) (fun s s' => inv_step hcf pref s s') s h
+
+/-! ## the theorems -/
+
+/-- **No deadlock**: in no reachable state is every unfinished client blocked — for any set of evaluate (query or
+change), delete-world and list-worlds requests.  (The upgrade releases the read lock before asking for the
+write lock.) -/
+theorem svc_no_deadlock (pref : Bool) (base : World) (v0 : View) (reqs : List Req) (s : State)
+    (h : Reachable (step pref) (init base v0 reqs) s) : deadlocked (step pref) terminal s = false :=
+  not_deadlocked pref s (reachable_weakInv h) (reachable_lockInv h)
+
+theorem countP_unique {α} (p : α → Bool) : ∀ (l : List α) (i j : Nat) (a b : α), l.countP p ≤ 1 →
+    l[i]? = some a → l[j]? = some b → p a = true → p b = true → i = j := by
+  intro l
+  induction l with
+  | nil => intro i j a b _ hi; simp at hi
+  | cons x rest ih =>
+    intro i j a b hc hi hj ha hb
+    rw [List.countP_cons] at hc
+    cases i with
+    | zero =>
+      cases j with
+      | zero => rfl
+      | succ j =>
+        simp at hi hj; subst hi
+        have : 0 < rest.countP p := List.countP_pos_iff.mpr ⟨b, List.mem_of_getElem? hj, hb⟩
+        rw [ha] at hc; simp only [↓reduceIte] at hc; omega
+    | succ i =>
+      cases j with
+      | zero =>
+        simp at hi hj; subst hj
+        have : 0 < rest.countP p := List.countP_pos_iff.mpr ⟨a, List.mem_of_getElem? hi, ha⟩
+        rw [hb] at hc; simp only [↓reduceIte] at hc; omega
+      | succ j =>
+        simp at hi hj
+        have := ih i j a b (by omega) hi hj ha hb
+        omega
+
+/-- **The write phase is exclusive**: while a client is between `Lock()` and `Unlock()` (applying its change),
+no client is in a read phase and no other client is in a write phase. -/
+theorem writer_excludes_readers (pref : Bool) (base : World) (v0 : View) (reqs : List Req) (s : State)
+    (h : Reachable (step pref) (init base v0 reqs) s) (i : Nat) (ci : Client) (hi : s.clients[i]? = some ci)
+    (hw : isWriter ci = true) :
+    (∀ (j : Nat) (cj : Client), s.clients[j]? = some cj → isReader cj = false) ∧
+    (∀ (j : Nat) (cj : Client), s.clients[j]? = some cj → isWriter cj = true → j = i) := by
+  have hl := reachable_lockInv h
+  have hpos : 0 < s.clients.countP isWriter := List.countP_pos_iff.mpr ⟨ci, List.mem_of_getElem? hi, hw⟩
+  have hwr : s.writer = true := by
+    have := hl.writers
+    cases hsw : s.writer
+    · rw [hsw] at this; simp only [Bool.false_eq_true, ↓reduceIte] at this; omega
+    · rfl
+  have hone : s.clients.countP isWriter = 1 := by have := hl.writers; rw [hwr] at this; simpa using this
+  constructor
+  · intro j cj hj
+    have hr0 : s.clients.countP isReader = 0 := by rw [← hl.readers]; exact hl.excl hwr
+    have := List.countP_eq_zero.mp hr0 cj (List.mem_of_getElem? hj)
+    cases hrj : isReader cj
+    · rfl
+    · exact absurd hrj this
+  · intro j cj hj hwj
+    exact countP_unique isWriter s.clients j i cj ci (by omega) hj hi hwj hw
+
+/-- The full statement of the property for the final worlds. -/
+def SerializableStatement : Prop :=
+  ∀ (pref : Bool) (base : World) (v0 : View) (reqs : List Req) (s : State),
+    Reachable (step pref) (init base v0 reqs) s → terminal s = true →
+    ∃ order : List Req, order.Perm reqs ∧ ∀ wid, lookupWorld s wid = vfind (serialRun base v0 order) wid
+
+/-- **Serializable when no request's change depends on state another request writes** (`conflictFree`: no guard
+of one request reads a key of the same world that another request's change writes): after all requests have
+returned, the worlds are exactly those produced by running the same requests one at a time in some order
+(a permutation of the requests), including which world IDs exist.  Deletions, re-creations and orphaned world
+objects included. -/
+theorem serializable_blind (pref : Bool) (base : World) (v0 : View) (reqs : List Req)
+    (hcf : conflictFree reqs = true) (s : State)
+    (h : Reachable (step pref) (init base v0 reqs) s) (ht : terminal s = true) :
+    ∃ order : List Req, order.Perm reqs ∧ ∀ wid, lookupWorld s wid = vfind (serialRun base v0 order) wid := by
+  have hinv := reachable_inv hcf h
+  -- every client is done, hence logged
+  have hdone : ∀ c ∈ s.clients, c.pc = Pc.done := by
+    intro c hc
+    have := (List.all_eq_true.mp ht) c hc
+    simpa using this
+  have hlogged : ∀ (j : Nat) (c : Client), s.clients[j]? = some c → c.logged = true := by
+    intro j c hj
+    have hp := (hinv.cl j c hj).phase
+    have hd := hdone c (List.mem_of_getElem? hj)
+    unfold phaseOk at hp
+    cases hr : c.req <;> simp [hr, hd] at hp <;> simp [hp]
+  refine ⟨s.log, ?_, ?_⟩
+  · have hf : s.clients.filter (·.logged) = s.clients := by
+      apply List.filter_eq_self.mpr
+      intro c hc
+      obtain ⟨j, hj⟩ := List.getElem?_of_mem hc
+      exact hlogged j c hj
+    have := hinv.perm
+    rw [hf, hinv.hreqs] at this
+    exact this
+  · intro wid
+    have := hinv.rel wid
+    unfold Rel at this
+    unfold lookupWorld
+    split
+    · rename_i o ho
+      rw [ho] at this
+      rcases this with ⟨w, hw, ha⟩ | ⟨_, _, j, c, hj, _, hl⟩
+      · rw [hw, ha]
+      · rw [hlogged j c hj] at hl; simp at hl
+    · rename_i ho
+      rw [ho] at this
+      exact this.symm
+
+/-! ## the full statement is false: write skew -/
+
+/-- A: "tag q (key 1) onto the feature if it has p (key 0)" -/
+def skewA : Req := .change 0 [⟨some (0, true), .set 1 1⟩]
+/-- B: "remove p from the feature if it has no q" -/
+def skewB : Req := .change 0 [⟨some (1, false), .del 0⟩]
+/-- one world with one feature tagged p -/
+def skewV0 : View := [(0, [(0, 1)])]
+
+/-- both requests read before either writes (schedule for writer-preferring and for plain RWMutex) -/
+def skewSched : Bool → List Nat
+  | true => [0, 0, 0, 1, 1, 1, 0, 0, 0, 0, 0, 0, 0, 0, 0, 0, 0, 0]
+  | false => [0, 0, 0, 1, 1, 1, 0, 0, 0, 0, 0, 1, 0, 0, 0, 0, 0, 0]
+
+theorem perm_pair {α} {a b : α} {l : List α} (h : l.Perm [a, b]) : l = [a, b] ∨ l = [b, a] := by
+  have hlen := h.length_eq
+  match l, hlen with
+  | [x, y], _ =>
+    have hx : x ∈ [a, b] := h.subset (by simp)
+    have hy : y ∈ [a, b] := h.subset (by simp)
+    have ha : a ∈ [x, y] := h.symm.subset (by simp)
+    have hb : b ∈ [x, y] := h.symm.subset (by simp)
+    simp at hx hy ha hb
+    rcases hx with rfl | rfl
+    · rcases hb with rfl | rfl
+      · rcases hy with rfl | rfl <;> simp
+      · simp
+    · rcases ha with rfl | rfl
+      · rcases hy with rfl | rfl <;> simp
+      · simp
+
+theorem skew_not_conflictFree : conflictFree [skewA, skewB] = false := by decide
+
+/-- **Write skew**: with `skewA` and `skewB` issued concurrently on a world holding one feature tagged p, both
+read `{p}` under the read lock, then both apply: the result `{q}` is produced by neither serial order
+(`A;B` gives `{p,q}`, `B;A` gives `{}`).  For both RWMutex disciplines.  The change is computed under the read
+lock and applied later under the write lock — a property of the design, recorded as a finding. -/
+theorem write_skew_counterexample (pref : Bool) :
+    ∃ s, Reachable (step pref) (init [] skewV0 [skewA, skewB]) s ∧ terminal s = true ∧
+      ¬ ∃ order : List Req, order.Perm [skewA, skewB] ∧
+          ∀ wid, lookupWorld s wid = vfind (serialRun [] skewV0 order) wid := by
+  cases pref
+  · refine ⟨(runSched (step false) (init [] skewV0 [skewA, skewB]) (skewSched false)).get (by decide), ?_,
+      by decide, ?_⟩
+    · exact Reachable.of_runSched (skewSched false) _ _ Reachable.refl (by simp)
+    · rintro ⟨order, hp, hv⟩
+      have h0 := hv 0
+      rcases perm_pair hp with rfl | rfl
+      · exact absurd h0 (by decide)
+      · exact absurd h0 (by decide)
+  · refine ⟨(runSched (step true) (init [] skewV0 [skewA, skewB]) (skewSched true)).get (by decide), ?_,
+      by decide, ?_⟩
+    · exact Reachable.of_runSched (skewSched true) _ _ Reachable.refl (by simp)
+    · rintro ⟨order, hp, hv⟩
+      have h0 := hv 0
+      rcases perm_pair hp with rfl | rfl
+      · exact absurd h0 (by decide)
+      · exact absurd h0 (by decide)
+
+theorem not_serializable : ¬ SerializableStatement := by
+  intro h
+  obtain ⟨s, hr, ht, hn⟩ := write_skew_counterexample true
+  exact hn (h true [] skewV0 [skewA, skewB] s hr ht)
+
+/-! ## `MutableWorlds.lock` -/
+
+open B6.Model.Proto.Worlds B6.Lemmas.ProtoWorlds in
+theorem reachable_winv {m : List (Nat × Nat)} {next : Nat} {ops : List Op} (hk : (m.map (·.1)).Nodup)
+    {s : Worlds.State} (h : Reachable Worlds.step (Worlds.init m next ops) s) : WInv s :=
+  Reachable.invariant WInv (winv_init m next ops hk) (fun s s' => winv_step s s') s h
+
+open B6.Model.Proto.Worlds B6.Lemmas.ProtoWorlds in
+/-- **Exactly one world per world ID**: along every interleaving of `FindOrCreateWorld`, `DeleteWorld` and
+`ListWorlds` calls, (1) at most one caller is inside `MutableWorlds.lock`; (2) the map never holds two
+entries for one ID; (3) an insertion never replaces a world object that is already registered (the ID is
+still absent when the caller that missed it inserts); (4) the object `FindOrCreateWorld` is about to return is
+the one registered for the ID. -/
+theorem one_world_per_id (m : List (Nat × Nat)) (next : Nat) (ops : List Op) (hk : (m.map (·.1)).Nodup)
+    (s : Worlds.State) (h : Reachable Worlds.step (Worlds.init m next ops) s) :
+    (∀ (i j : Nat) (ci cj : Worlds.Client), s.clients[i]? = some ci → s.clients[j]? = some cj →
+        inCS ci.pc = true → inCS cj.pc = true → i = j) ∧
+    (s.map.map (·.1)).Nodup ∧
+    (∀ (j : Nat) (c : Worlds.Client), s.clients[j]? = some c → c.pc = .insert →
+        ∃ wid, c.op = .findOrCreate wid ∧ mfind s.map wid = none) ∧
+    (∀ (j : Nat) (c : Worlds.Client) (wid : Nat), s.clients[j]? = some c → c.pc = .unlock →
+        c.op = .findOrCreate wid → ∃ o, c.result = some o ∧ mfind s.map wid = some o) := by
+  have hw := reachable_winv hk h
+  refine ⟨?_, hw.keys, hw.ins, hw.unl⟩
+  intro i j ci cj hi hj hci hcj
+  have h1 := (hw.hold i ci hi).mp hci
+  have h2 := (hw.hold j cj hj).mp hcj
+  rw [h1] at h2
+  simpa using h2
+
+/-! ## the hypotheses are satisfiable / the statements are not vacuous -/
+
+/-- a conflict-free mix with a guard, a blind write, a delete, a query and a list on two worlds -/
+def mix : List Req :=
+  [.change 0 [⟨some (3, true), .set 1 7⟩, ⟨none, .del 2⟩], .change 0 [⟨none, .set 4 1⟩], .delete 0, .query 1, .list]
+
+example : conflictFree mix = true := by decide
+example : (step true (init [(3, 1)] [] mix)).length = 5 := by decide
+example : conflictFree [skewA, skewB] = false := by decide
+-- the orphan: the evaluate fetches world 0, the delete removes it, the write lands on the orphan
+example : ((runSched (step true) (init [] [(0, [])] [.change 0 [⟨none, .set 5 5⟩], .delete 0]) [0, 0, 0, 1, 0, 0, 0, 0, 0, 0]).map
+    fun s => (terminal s, lookupWorld s 0 == none, s.heap == [[(5, 5)]])) = some (true, true, true) := by decide
+
+end B6.Props.C40
